@@ -430,6 +430,10 @@ func (e *Engine) copyValue(m MV, addr atree.Address) (atree.Value, MV, error) {
 		}
 		return Some{V: v}, MSome{V: mv}, nil
 	case *Node:
+		if x.IsMap && !x.TI.Comp && e.excludeF4() {
+			e.Stats.Add("excluded_known_F4", 1)
+			return U64(uint64(len(x.Ents))), U64(uint64(len(x.Ents))), nil
+		}
 		if x.IsMap {
 			n := &Node{ID: e.nextNode, Addr: addr, IsMap: true, TI: x.TI, Ents: map[string]*Ent{}, Ins: map[string]int{}}
 			e.nextNode++
